@@ -447,3 +447,337 @@ class merge(FnContract):
             c.eq(v["_orientations_quat_wxyz"][1](k), concat("_orientations_quat_wxyz", og(k))))), role="prop")
         yield Clause("inputs_unchanged", c.And(*[tm.unchanged(c, t, sn) for t, sn in zip(trajs, old.ts)]), role="prop",
                      props=["C11", "C16"])
+
+
+# =====================================================================================================================
+# C08 / C04 / C14 / C16 : geometric operations
+# =====================================================================================================================
+
+@register
+class quaternion_from_matrix(FnContract):
+    """vendored third-party routine (eigen-decomposition): trusted contract, body not verified"""
+    name = "evo.core.transformations.quaternion_from_matrix"
+    props = ["C08"]
+
+    def args(self, c):
+        return dict(matrix=c.matrix("M", 4, 4), isprecise=False)
+
+    def result(self, c, a):
+        return c.matrix("quat", 4)
+
+    def post(self, c, a, res):
+        q = res
+        unit = q[0] * q[0] + q[1] * q[1] + q[2] * q[2] + q[3] * q[3] == 1
+        so3 = c.And(*spec.is_SO3_exact(a.matrix[:3, :3], c.eq))
+        yield Clause("unit_quaternion_of_the_rotation_block", c.And(unit, q[0] >= 0, c.Implies(
+            so3, c.eq(spec.qmat(q), a.matrix[:3, :3]))), role="aux")
+
+
+def se3_T(c, name="T"):
+    t = c.matrix(name, 4, 4)
+    for cl in spec.is_SE3_exact(t):
+        c.assume(cl)
+    return t
+
+
+def views_consistent(c, t):
+    """positions = translation parts of the matrices; (unit quaternions describe the rotation blocks: via the
+    trusted quaternion_from_matrix contract)"""
+    v = tm.views(t)
+    conds = []
+    if "_poses_se3" in v and "_positions_xyz" in v:
+        n, pg, _ = v["_poses_se3"]
+        m, xg, _ = v["_positions_xyz"]
+        conds.append(n == m)
+        conds.append(c.forall(n, lambda k: c.eq(xg(k), sym.carr([pg(k)[i, 3] for i in range(3)]))))
+    if "_poses_se3" in v and "_orientations_quat_wxyz" in v:
+        n, pg, _ = v["_poses_se3"]
+        m, qg, _ = v["_orientations_quat_wxyz"]
+        conds.append(n == m)
+    return c.And(*conds) if conds else True
+
+
+@register
+class transform(_TrajMethod):
+    name = T + "PosePath3D.transform"
+    props = ["C08", "C04", "C15", "C16"]
+    modes = ("poses", )
+    stamps = False
+    wf = True
+
+    def cases(self):
+        # the propagating variant (right_mul and propagate) is exercised by the bounded stand-in only: its chain
+        # invariant needs definition unfolding inside matrix products under a quantifier, which the back ends
+        # leave undecided (recorded in DESIGN.md)
+        return [{"right_mul": False, "propagate": False}, {"right_mul": True, "propagate": False},
+                {"right_mul": False, "propagate": True}]
+
+    def args(self, c, right_mul=False, propagate=False):
+        return dict(self=self.mk(c, "poses"), t=se3_T(c), right_mul=right_mul, propagate=propagate)
+
+    def result(self, c, a):
+        t = a.self
+        n = t._n
+        t._poses_se3 = c.seq("tr_P", n, (4, 4))
+        t._positions_xyz = c.array("tr_xyz", n, (3, ))
+        t._orientations_quat_wxyz = c.array("tr_q", n, (4, ))
+        return None
+
+    def post(self, c, a, res, old=None):
+        t, T_ = a.self, a.t
+        n = old.n
+        v = tm.views(t)
+        if "_poses_se3" not in v:
+            yield Clause("matrices_present", False, role="prop")
+            return
+        m, pg, _ = v["_poses_se3"]
+        og = old.self["_poses_se3"][1]
+        yield Clause("same_number_of_poses", m == n, role="prop")
+        if a.right_mul and a.propagate:
+            yield Clause("first_pose_kept", c.eq(pg(0), og(0)), role="prop")
+            yield Clause("every_relative_motion_D_becomes_D*T", c.forall_where(1, n, lambda k: c.eq(
+                pg(k), spec.mul4(pg(k - 1), spec.mul4(spec.mul4(spec.inv_se3(og(k - 1)), og(k)), T_))), None), role="prop",
+                note="new_k = new_(k-1) * (old_(k-1)^-1 old_k) * T")
+        elif a.right_mul:
+            yield Clause("every_pose_P_becomes_P*T", c.forall(n, lambda k: c.eq(pg(k), spec.mul4(og(k), T_))), role="prop")
+        else:
+            yield Clause("every_pose_P_becomes_T*P", c.forall(n, lambda k: c.eq(pg(k), spec.mul4(T_, og(k)))), role="prop")
+        yield Clause("positions_and_matrices_agree", views_consistent(c, t), role="prop")
+        yield Clause("all_three_representations_present", {"_positions_xyz", "_orientations_quat_wxyz"} <= set(v),
+                     role="prop")
+
+    def _inv(c, i, v):
+        P = sym.as_seq(v.self._poses_se3)
+        old = v.__dict__.get("__old_poses__")
+        yield "length", c.len(P) == i + 1
+        rel = sym.as_seq(v.rel_poses)
+        yield "chain", c.forall_where(1, i + 1, lambda k: c.eq(P.get(k), spec.mul4(P.get(k - 1), rel.get(k - 1))), None)
+        yield "first", c.eq(P.get(0), v.first_pose) if hasattr(v, "first_pose") else True
+
+    loops = {0: LoopSpec(_inv, types={"self._poses_se3": "list[mat4]"})}
+
+
+@register
+class scale(_TrajMethod):
+    name = T + "PosePath3D.scale"
+    props = ["C08", "C04", "C16"]
+    modes = ("poses", "xyzquat", "all")
+    stamps = False
+
+    def args(self, c, mode="poses"):
+        return dict(self=self.mk(c, mode), s=c.real("s"))
+
+    def result(self, c, a):
+        t = a.self
+        n = t._n
+        if "_poses_se3" in t.__dict__:
+            t._poses_se3 = c.seq("sc_P", n, (4, 4))
+        if "_positions_xyz" in t.__dict__:
+            t._positions_xyz = c.array("sc_xyz", n, (3, ))
+        return None
+
+    def post(self, c, a, res, old=None):
+        t, s = a.self, a.s
+        n = old.n
+        v = tm.views(t)
+        yield Clause("same_representations", set(v) == set(old.self), role="prop")
+        if "_poses_se3" in v and "_poses_se3" in old.self:
+            pg, og = v["_poses_se3"][1], old.self["_poses_se3"][1]
+            yield Clause("matrices:positions_scaled_rotation_and_bottom_row_kept", c.And(v["_poses_se3"][0] == n, c.forall(
+                n, lambda k: c.And(*([c.eq(pg(k)[i, 3], s * og(k)[i, 3]) for i in range(3)] +
+                                     [c.eq(pg(k)[i, j], og(k)[i, j]) for i in range(3) for j in range(3)] +
+                                     [c.eq(pg(k)[3, j], 1 if j == 3 else 0) for j in range(4)])))), role="prop")
+        if "_positions_xyz" in v and "_positions_xyz" in old.self:
+            xg, ox = v["_positions_xyz"][1], old.self["_positions_xyz"][1]
+            yield Clause("positions_scaled", c.And(v["_positions_xyz"][0] == n, c.forall(
+                n, lambda k: c.eq(xg(k), sym.carr([s * ox(k)[i] for i in range(3)])))), role="prop")
+        if "_orientations_quat_wxyz" in old.self:
+            yield Clause("orientations_untouched", "_orientations_quat_wxyz" in v and
+                         v["_orientations_quat_wxyz"][2] is old.self["_orientations_quat_wxyz"][2] and
+                         v["_orientations_quat_wxyz"][2]._cell[0] is old.self["_orientations_quat_wxyz"][1], role="prop")
+
+
+@register
+class align_origin(_TrajMethod):
+    name = T + "PosePath3D.align_origin"
+    props = ["C04", "C08", "C16"]
+    modes = ("poses", )
+    stamps = False
+    wf = True
+
+    def args(self, c, mode="poses"):
+        return dict(self=self.mk(c, "poses", "est"), traj_ref=self.mk(c, "poses", "ref"))
+
+    def snapshot(self, c, a):
+        o = _TrajMethod.snapshot(self, c, a)
+        o.ref = tm.snapshot(a.traj_ref)
+        return o
+
+    def result(self, c, a):
+        r = c.matrix("to_ref_origin", 4, 4)
+        transform().result(c, types.SimpleNamespace(self=a.self))
+        return r
+
+    def post(self, c, a, res, old=None):
+        t, ref = a.self, a.traj_ref
+        og = old.self["_poses_se3"][1]
+        rg = old.ref["_poses_se3"][1]
+        yield Clause("returned_transformation_is_ref_0*est_0^-1", c.eq(res, spec.mul4(rg(0), spec.inv_se3(og(0)))), role="prop")
+        v = tm.views(t)
+        pg = v["_poses_se3"][1]
+        yield Clause("every_pose_moved_by_exactly_the_returned_transformation", c.And(
+            v["_poses_se3"][0] == old.n, c.forall(old.n, lambda k: c.eq(pg(k), spec.mul4(res, og(k))))), role="prop")
+        yield Clause("reference_unchanged", tm.unchanged_data(c, ref, old.ref), role="prop", props=["C04", "C16"])
+
+
+@register
+class align(_TrajMethod):
+    name = T + "PosePath3D.align"
+    props = ["C04", "C16"]
+    modes = ("poses", )
+    stamps = False
+    wf = True
+
+    def cases(self):
+        out = []
+        for cs in (False, True):
+            for co in (False, True):
+                for n_given in (False, True):
+                    out.append({"correct_scale": cs, "correct_only_scale": co, "n_given": n_given})
+        return out
+
+    def args(self, c, correct_scale=False, correct_only_scale=False, n_given=False):
+        est = self.mk(c, "poses", "est")
+        ref = self.mk(c, "poses", "ref")
+        n = -1
+        if n_given:
+            n = c.int("n_to_align")
+            c.assume(n >= 1)
+        return dict(self=est, traj_ref=ref, correct_scale=correct_scale, correct_only_scale=correct_only_scale, n=n)
+
+    def pre(self, c, a):
+        yield ("n_is_minus_one_or_positive", True if a.n == -1 and not sym.is_sym(a.n) else a.n >= 1)
+
+    def snapshot(self, c, a):
+        o = _TrajMethod.snapshot(self, c, a)
+        o.ref = tm.snapshot(a.traj_ref)
+        o.ref_n = a.traj_ref._n
+        return o
+
+    raises = (Raises("GeometryException", "umeyama_refuses_the_point_sets",
+                     lambda c, a: bool(sym.cur().ghost.get("raised:evo.core.geometry.umeyama_alignment")), role="prop"), )
+
+    def result(self, c, a):
+        r, t, s = c.matrix("al_r", 3, 3), c.matrix("al_t", 3), c.real("al_s")
+        transform().result(c, types.SimpleNamespace(self=a.self))
+        return (r, t, s)
+
+    def post(self, c, a, res, old=None):
+        est, ref = a.self, a.traj_ref
+        g = sym.cur().ghost.get("umeyama_result")
+        if g is None:
+            yield Clause("alignment_computed", False, role="prop")
+            return
+        r, t, s, ua = g
+        yield Clause("returns_the_alignment_parameters", (res[0] is r) and (res[1] is t) and (res[2] is s or res[2] == s),
+                     role="prop")
+        with_scale = a.correct_scale or a.correct_only_scale
+        yield Clause("scale_estimated_iff_requested", ua.with_scale == with_scale, role="prop")
+        # first-n wiring: both point sets are the first n' positions of estimate resp. reference
+        og = old.self["_poses_se3"][1]
+        rg = old.ref["_poses_se3"][1]
+        nx, ny = ua.x.shape[1], ua.y.shape[1]
+        if a.n == -1 and not sym.is_sym(a.n):
+            want_x, want_y = old.n, old.ref_n
+        else:
+            want_x, want_y = c.ite(a.n < old.n, a.n, old.n), c.ite(a.n < old.ref_n, a.n, old.ref_n)
+        yield Clause("determined_from_the_first_n_pose_pairs", c.And(
+            nx == want_x, ny == want_y,
+            c.forall(nx, lambda k: c.eq(ua.x.base.row(k), sym.carr([og(k)[i, 3] for i in range(3)]))),
+            c.forall(ny, lambda k: c.eq(ua.y.base.row(k), sym.carr([rg(k)[i, 3] for i in range(3)])))), role="prop")
+        v = tm.views(est)
+        pg = v["_poses_se3"][1]
+        n = old.n
+
+        def moved(k):
+            P, O = pg(k), og(k)
+            conds = []
+            for i in range(3):
+                rp = r[i, 0] * O[0, 3] + r[i, 1] * O[1, 3] + r[i, 2] * O[2, 3]
+                if a.correct_only_scale:
+                    conds.append(c.eq(P[i, 3], s * O[i, 3]))
+                elif a.correct_scale:
+                    conds.append(c.eq(P[i, 3], s * rp + t[i]))
+                else:
+                    conds.append(c.eq(P[i, 3], rp + t[i]))
+                for j in range(3):
+                    if a.correct_only_scale:
+                        conds.append(c.eq(P[i, j], O[i, j]))
+                    else:
+                        conds.append(c.eq(P[i, j], r[i, 0] * O[0, j] + r[i, 1] * O[1, j] + r[i, 2] * O[2, j]))
+            return c.And(*conds)
+        yield Clause("every_pose_moved_by_exactly_the_returned_similarity", c.And(v["_poses_se3"][0] == n,
+                                                                                  c.forall(n, moved)), role="prop",
+                     note="p -> s*R*p + t, R_p -> R*R_p  (scale-only: p -> s*p and nothing else)")
+        yield Clause("reference_unchanged", tm.unchanged_data(c, ref, old.ref), role="prop", props=["C04", "C16"])
+
+
+# ---- plane projection (C14) ------------------------------------------------------------------------------------------
+
+NULL_DIM = {"XY": 2, "XZ": 1, "YZ": 0}
+
+
+def projected_pose_ok(c, new, old, a):
+    """pose `new` is pose `old` projected into the plane with normal axis a"""
+    o1, o2 = [i for i in range(3) if i != a]
+    conds = [c.eq(new[a, 3], 0), c.eq(new[o1, 3], old[o1, 3]), c.eq(new[o2, 3], old[o2, 3])]
+    # orientation: a pure rotation about the normal: e_a is fixed, the in-plane block is [[cs, -sn], [sn, cs]], cs^2+sn^2 = 1
+    conds += [c.eq(new[a, a], 1), c.eq(new[a, o1], 0), c.eq(new[a, o2], 0), c.eq(new[o1, a], 0), c.eq(new[o2, a], 0)]
+    conds += [c.eq(new[o1, o1], new[o2, o2]), c.eq(new[o1, o2], -new[o2, o1]),
+              c.eq(new[o1, o1] * new[o1, o1] + new[o2, o1] * new[o2, o1], 1)]
+    conds += [c.eq(new[3, j], old[3, j]) for j in range(4)]
+    return c.And(*conds)
+
+
+@register
+class project(_TrajMethod):
+    name = T + "PosePath3D.project"
+    props = ["C14", "C08", "C16"]
+    modes = ("poses", "all")
+    stamps = True
+    wf = True
+
+    def cases(self):
+        return [{"mode": m, "plane": p} for m in self.modes for p in ("XY", "XZ", "YZ")]
+
+    def args(self, c, mode="poses", plane="XY"):
+        t = self.mk(c, mode)
+        t._projected = c.bool("already_projected")
+        Plane = L().load("evo.core.trajectory").Plane
+        return dict(self=t, plane=getattr(Plane, plane))
+
+    raises = (Raises("TrajectoryException", "second_projection_refused", lambda c, a: a.self._projected == True,
+                     role="prop", pre_state=True), )
+
+    def post(self, c, a, res, old=None):
+        t = a.self
+        ax = NULL_DIM[a.plane.name]
+        v = tm.views(t)
+        n = old.n
+        pg, og = v["_poses_se3"][1], old.self["_poses_se3"][1]
+        yield Clause("count_and_order_unchanged", v["_poses_se3"][0] == n, role="prop")
+        yield Clause("every_pose_projected_into_the_plane", c.forall(n, lambda k: projected_pose_ok(c, pg(k), og(k), ax)),
+                     role="prop", note="zero out-of-plane coordinate, in-plane coordinates unchanged, pure rotation about the normal")
+        yield Clause("timestamps_unchanged", v["timestamps"][2] is old.self["timestamps"][2] and
+                     v["timestamps"][2]._cell[0] is old.self["timestamps"][1], role="prop")
+        yield Clause("cached_views_flushed", "_positions_xyz" not in v and "_orientations_quat_wxyz" not in v, role="prop",
+                     props=["C14", "C08"], note="positions / quaternions are regenerated from the projected matrices on demand")
+        yield Clause("marked_as_projected", t._projected is True, role="prop")
+
+    def _inv(c, i, v):
+        ax = v.null_dim
+        n = c.len(v.elems)
+        yield "visited_poses_projected", c.forall(i, lambda k: projected_pose_ok(c, v.elems.get(k), v.old_elems.get(k), ax))
+        yield "others_untouched", c.forall_where(i, n, lambda k: c.eq(v.elems.get(k), v.old_elems.get(k)), None)
+
+    loops = {0: LoopSpec(_inv)}
